@@ -761,6 +761,9 @@ func (x *Exec) specQuant(env *SpecEnv, q EQuant) SpecVal {
 			if ty == nil {
 				unsupported("unknown quantifier type %s", v.Type)
 			}
+			if isStructType(ty) {
+				ty = types.NewPointer(ty) // objects are quantified by reference
+			}
 			srt = x.sortOf(ty)
 		}
 		x.d.fresh["bv!"+v.Name]++
@@ -770,9 +773,52 @@ func (x *Exec) specQuant(env *SpecEnv, q EQuant) SpecVal {
 	}
 	body := x.specBool(cur, q.Body)
 	if q.Forall {
+		if len(vars) == 1 {
+			// triggers: every array read indexed exactly by the bound variable
+			var pats [][]Term
+			for _, p := range selectsOn(body.S, vars[0].S) {
+				pats = append(pats, []Term{{S: p}})
+			}
+			if len(pats) > 0 && len(pats) <= 6 {
+				return SpecVal{T: Forall(vars, body, pats...)}
+			}
+		}
 		return SpecVal{T: Forall(vars, body)}
 	}
 	return SpecVal{T: Exists(vars, body)}
+}
+
+// selectsOn returns the distinct sub-terms "(select A v)" of s whose index is
+// exactly the variable v and whose array A does not itself contain v... (A may
+// contain v when reads are nested; such terms are still valid triggers).
+func selectsOn(s, v string) []string {
+	var out []string
+	seen := map[string]bool{}
+	suffix := " " + v + ")"
+	for i := 0; i+8 < len(s); i++ {
+		if !strings.HasPrefix(s[i:], "(select ") {
+			continue
+		}
+		depth := 0
+		for j := i; j < len(s); j++ {
+			if s[j] == '(' {
+				depth++
+			} else if s[j] == ')' {
+				depth--
+				if depth == 0 {
+					t := s[i : j+1]
+					if strings.HasSuffix(t, suffix) && !seen[t] {
+						// the bound variable must not occur elsewhere in a way
+						// that makes the trigger ill-formed; any occurrence is fine
+						seen[t] = true
+						out = append(out, t)
+					}
+					break
+				}
+			}
+		}
+	}
+	return out
 }
 
 func (x *Exec) specCall(env *SpecEnv, c ECall) SpecVal {
@@ -1507,16 +1553,20 @@ func (x *Exec) exitChecks(cfg *Config, f *Frame, res []Val) {
 			cfg.st.assume(Eq(rt.T, x.pureTerm(x.fn, ats)))
 		}
 	}
+	// ghost updates are simultaneous: every right-hand side is evaluated in
+	// the state before any of them
+	preGhost := cfg.st.clone()
 	for _, gs := range x.c.GhostSets {
-		x.applyGhostSet(cfg, env, gs)
+		x.applyGhostSetIn(cfg, env, gs, preGhost)
+	}
+	for _, ga := range x.c.GhostAlls {
+		x.applyGhostAll(cfg, env, ga, preGhost)
 	}
 	env.st = cfg.st
 	for _, e := range x.c.Ensures {
 		if e.Name == "" {
-			if call, ok := e.E.(ECall); ok && x.findPred(env, call.Fn) != nil {
-				x.obligeInv(cfg, env, e.E, "post", "", x.clauseProps(e, nil), f.block.Instrs[f.idx].Pos(), 0)
-				continue
-			}
+			x.obligeInv(cfg, env, e.E, "post", "", x.clauseProps(e, nil), f.block.Instrs[f.idx].Pos(), 1)
+			continue
 		}
 		t := x.specBool(env, e.E)
 		x.oblige(cfg, "post", x.clauseLabel(e), t, x.clauseProps(e, nil), f.block.Instrs[f.idx].Pos())
@@ -1549,13 +1599,46 @@ func (x *Exec) panicExitChecks(cfg *Config, f *Frame) {
 
 // applyGhostSet performs a definitional ghost update "loc == expr" at exit.
 func (x *Exec) applyGhostSet(cfg *Config, env *SpecEnv, gs *Clause) {
+	x.applyGhostSetIn(cfg, env, gs, cfg.st)
+}
+
+// applyGhostAll redefines a ghost field for every object: S.f(x) = expr.
+func (x *Exec) applyGhostAll(cfg *Config, env *SpecEnv, ga *Clause, evalSt *State) {
+	st, fl, v, ok := parseHead(ga.Name)
+	if !ok {
+		unsupported("ghostall head %q", ga.Name)
+	}
+	g := x.ghostField(st, fl)
+	if g == nil || strings.HasPrefix(g.Type, "seq") {
+		unsupported("ghostall: %s.%s is not a scalar ghost field", st, fl)
+	}
+	ty := x.resolveTypeText(env, st)
+	if ty == nil {
+		unsupported("ghostall: unknown type %s", st)
+	}
+	name := ghostArrName(g)
+	srt := x.ghostSort(g.Type)
+	xv := Term{"ga!" + v, SInt}
+	eenv := env.withState(evalSt).bind(v, SpecVal{T: xv, Ty: types.NewPointer(ty)})
+	rhs := x.spec(eenv, ga.E)
+	val := rhs.T
+	if rhs.Lit {
+		val = x.intLit(rhs.N, srt)
+	}
+	x.heapGet(cfg.st, name, SArr(SInt, srt))
+	na := x.d.Fresh("gall!"+name, SArr(SInt, srt))
+	cfg.st.assume(Forall([]Term{xv}, Eq(Select(na, xv), val), []Term{Select(na, xv)}))
+	cfg.st.heap[name] = na
+}
+
+func (x *Exec) applyGhostSetIn(cfg *Config, env *SpecEnv, gs *Clause, evalSt *State) {
 	bin := gs.E.(EBinary)
 	lhs, ok := bin.L.(EField)
 	if !ok {
 		unsupported("ghostset target must be obj.field")
 	}
 	// evaluate the right-hand side in the state before any ghost update of this exit
-	env.st = cfg.st
+	env = env.withState(evalSt)
 	base := x.spec(env, lhs.X)
 	styp := base.Ty
 	if el := derefType(styp); el != nil {
